@@ -55,6 +55,9 @@ pub struct Qcow2Dev<T> {
     // metadata flush whether something written earlier (e.g. slices written
     // back by a cache eviction) still has to be synced
     unsynced: AtomicBool,
+    // new data clusters whose zeroing failed: they are mapped already, so the
+    // next metadata flush has to zero them before the mapping can land
+    zero_failed: std::sync::Mutex<std::collections::HashSet<u64>>,
     flush_lock: AsyncMutex<()>,
 
     file: T,
@@ -124,6 +127,7 @@ impl<T: Qcow2IoOps> Qcow2Dev<T> {
             new_cluster: AsyncRwLock::new(Default::default()),
             need_flush: AtomicBool::new(false),
             unsynced: AtomicBool::new(false),
+            zero_failed: Default::default(),
             flush_lock: AsyncMutex::new(()),
         };
 
